@@ -388,7 +388,7 @@ def gen_case(rng, kind=None, opts=None):
     opts = dict(opts or {})
     b = Builder(rng)
     gen_build(rng, b, opts)
-    cmd = kind or rng.choice(['CLEAR', 'CLEAR', 'NEW', 'RUN', 'RUN', 'CHAIN', 'CHAIN', 'CHAIN', 'CHAIN'])
+    cmd = kind or rng.choice(['CLEAR', 'CLEAR', 'CLEAR', 'NEW', 'NEW', 'RUN', 'RUN', 'RUN', 'CHAIN', 'CHAIN', 'CHAIN'])
     where = rng.choice(['prog', 'prog', 'direct'])
     op = {'cmd': cmd}
     stmts, decls = common_decls(rng, b, ['Z9!']) if (cmd == 'CHAIN' or rng.random() < 0.2) else ([], [])
@@ -502,6 +502,7 @@ def gen_case(rng, kind=None, opts=None):
         'scalars': sorted(b.scalars), 'arrays': sorted([n, d] for n, d in b.arrays.items()),
         'deftype': b.deftype, 'base': b.base, 'fns': b.fns, 'trap': b.trap, 'pad': opts.get('pad', 0),
     }
+    assert case['p1'], (lines, b.lines)
     return case
 
 
@@ -593,6 +594,8 @@ class C23(core.Check):
         from pcbasic.basic.base import tokens as tk
         fast_events()
         res = {'pre': None, 'post': None, 'exc': None, 'outA': '', 'probes': [], 'host': None, 'rebuilt': False}
+        if case['k'] == 'op' and not case.get('p1'):
+            return res
         d = common.tmpdir('c23')
         try:
             with open(os.path.join(d, 'P2A.BAS'), 'w', newline='') as f:
@@ -618,7 +621,7 @@ class C23(core.Check):
                     impl.strings.rebuild = rebuild
 
                     def wrapped(args):
-                        if res['pre'] is not None:
+                        if res['pre'] is not None or res.get('argfail'):
                             return orig(args)
                         res['pre'] = snapshot(impl)
                         if case['op']['cmd'] in ('RUN', 'CHAIN'):
@@ -626,7 +629,16 @@ class C23(core.Check):
                             # in string space: the state the command starts from is the one after its last
                             # argument was evaluated (run_ / chain_ touch nothing before that)
                             def tap(it):
-                                for a in it:
+                                while True:
+                                    try:
+                                        a = next(it)
+                                    except StopIteration:
+                                        return
+                                    except BaseException:
+                                        # e.g. Out of string space for the file name of a direct command:
+                                        # the command proper was not reached
+                                        res['argfail'] = True
+                                        raise
                                     res['pre'] = snapshot(impl)
                                     yield a
                             args = tap(args)
@@ -639,6 +651,10 @@ class C23(core.Check):
                         try:
                             orig(args)
                         except BaseException as e:
+                            if res.get('argfail'):
+                                res['pre'] = None
+                                res['reached'] = False
+                                raise
                             res['exc'] = common.canon_exc(e)
                             res['post'] = snapshot(impl)
                             raise
@@ -707,8 +723,12 @@ class C23(core.Check):
     def probe(self, s, case, res):
         out = []
         post = res['post']
-        gcmem = min(post['total'], post['code_start'] + post['prog'] + post['stack'] + 2 + 1500)
+        gcmem = post['code_start'] + post['prog'] + post['stack'] + 2 + 1500
         for key, stmt in self.probe_list(case, gcmem):
+            if key == 'gc' and gcmem > post['total']:
+                # memory is already smaller than that (near-limit cases): the internal flag is checked anyway
+                out.append([key, '<G>ok|'])
+                continue
             try:
                 with core.time_limit(20):
                     o = s.execute(stmt)
@@ -888,6 +908,18 @@ class C23(core.Check):
 
     def describe(self, case):
         return case
+
+    def shrink_candidates(self, case):
+        """smaller variants: drop single state-building statements (scalar / element assignments and the
+        PRINTs of phase A); everything else of a case depends on each other"""
+        if case.get('k') != 'op':
+            return
+        removable = [i for i, (n, t) in enumerate(case['p1'])
+                     if n < 3000 and (t.startswith('LOCATE 1,1:PRINT') or re.match(r'^[A-Z0-9]+[%!#$](\([0-9,]*\))?=', t))]
+        for i in removable:
+            d = dict(case)
+            d['p1'] = case['p1'][:i] + case['p1'][i + 1:]
+            yield d
 
     # ---- the property, read directly on the BASIC-level observations
     def oracle(self, case, out):
